@@ -75,17 +75,13 @@ Proof. vm_compute. repeat split; reflexivity. Qed.
 Theorem C03_forward_gate_sound : forall es s f, Forall wf_event es -> run empty es = Ok s ->
   step s (Use f) = Ok s -> safe_now s f = true /\ Safe s f.
 Proof. exact gate_sound. Qed.
-(* a rejected invocation has an unmet requirement (that every unmet requirement is a reachable function without body - the gate
-   rejects nothing that is safe - is the bounded statement below) *)
-Theorem C03_forward_gate_rejects_unmet : forall es s f, Forall wf_event es -> run empty es = Ok s ->
-  step s (Use f) = MissingForward -> exists l r, reqs_of s f = Some l /\ In r l /\ Unmet s r.
-Proof. exact gate_rejects_unmet. Qed.
+(* ... and, also for every program, an invocation the gate rejects (MissingForwardImplementation) really is unsafe: the gate is exact *)
+Theorem C03_forward_gate_exact : forall es s f, Forall wf_event es -> run empty es = Ok s ->
+  step s (Use f) = MissingForward -> safe_now s f = false /\ ~ Safe s f.
+Proof. exact gate_exact. Qed.
 
-(* forward declarations: the compiler's bookkeeping (requirements recorded when a function is defined, checked transitively
-   through the implementations of fulfilled declarations when a function is invoked) accepts an invocation exactly when no
-   function reachable from it lacks a body.  BOUNDED statement (an exhaustive sweep lifted to a quantified statement, not an
-   unbounded proof): every program of at most 9 events over 3 function names, and of at most 7 events over 4 names, made of
-   forward declarations, definitions calling any subset of the smaller names, and invocations, in any order *)
+(* the same equivalence as an exhaustive sweep (kept as a cross-check of the definitions; the unbounded theorems above subsume it):
+   every program of at most 9 events over 3 function names, and of at most 7 events over 4 names *)
 Theorem C03_forward_gate_bounded :
   (forall es, List.length es <= 9 -> Forall (fun e => In e (universe 3)) es -> gate_right empty es = true) /\
   (forall es, List.length es <= 7 -> Forall (fun e => In e (universe 4)) es -> gate_right empty es = true).
@@ -109,4 +105,4 @@ Print Assumptions C03_cells_nonvacuous.
 Print Assumptions C03_forward_gate_bounded.
 Print Assumptions C03_forward_shallow_rule_refuted.
 Print Assumptions C03_forward_gate_sound.
-Print Assumptions C03_forward_gate_rejects_unmet.
+Print Assumptions C03_forward_gate_exact.
